@@ -1541,6 +1541,10 @@ class Engine:
       if (isinstance(t, ast.Name) and self.cur is not None and len(st.frames) == 1 and not st.spec
           and t.id in getattr(self.cur, "on_assign", {})):
         self.run_ghost(st, self.cur.on_assign[t.id], {}, f"{self.cur.qual}/at-assign:{t.id}@{self.loc(s)}", s.lineno)
+      key = getattr(self, "sub_assign_ord", {}).get(id(s))
+      if (key is not None and isinstance(t, ast.Subscript) and self.cur is not None and len(st.frames) == 1
+          and not st.spec and key in getattr(self.cur, "on_assign", {})):
+        self.run_ghost(st, self.cur.on_assign[key], {}, f"{self.cur.qual}/at-assign:{key}", s.lineno)
 
   def st_AnnAssign(self, s, st):
     if s.value is not None:
@@ -2386,6 +2390,16 @@ class Engine:
                     clause=f"iterations of loop {k} of {c.qual} are independent", props={"C17"})
     # hook sites must exist: a hook whose site vanished would silently drop its obligations
     assigned_here = {t.id for nd in ast.walk(fn) if isinstance(nd, ast.Assign) for t in nd.targets if isinstance(t, ast.Name)}
+    # element assignments `name[...] = ...` are addressed as "name#k": the k-th such statement in source order (k from 0)
+    self.sub_assign_ord = {}
+    counts = {}
+    for nd in sorted((n for n in ast.walk(fn) if isinstance(n, ast.Assign)), key=lambda n: (n.lineno, n.col_offset)):
+      for t in nd.targets:
+        if isinstance(t, ast.Subscript) and isinstance(t.value, ast.Name):
+          k = counts.get(t.value.id, 0)
+          counts[t.value.id] = k + 1
+          self.sub_assign_ord[id(nd)] = f"{t.value.id}#{k}"
+          assigned_here.add(f"{t.value.id}#{k}")
     for name in getattr(c, "on_assign", {}):
       if name not in assigned_here:
         return dict(status="unsupported", reason=f"{c.target}: on_assign site `{name} = ...` not found in the function")
